@@ -49,6 +49,8 @@ def case_history(rep):
             steps = []
             last = 0.0
             total = 0
+            fail_step = int(rng.integers(0, nsteps))  # any step: the job must not go on with the steps behind it
+            ramps = []
             for s in range(nsteps):
                 n = int(rng.integers(1, 6))
                 rk = ["monotone", "cyclic", "repeated", "random", "return-to-zero"][int(rng.integers(0, 5))]
@@ -71,7 +73,7 @@ def case_history(rep):
                         if kind == "axisymmetric":
                             v[:, -1] = 0
                         ramp[it] = v
-                if inject and s == nsteps - 1:
+                if inject and s == fail_step:
                     k = int(rng.integers(0, n))
                     move = np.array(move, dtype=float)
                     # inverts the body (NaN norms) or asks for a jump that cannot converge within the iteration limit
@@ -79,11 +81,20 @@ def case_history(rep):
                     ramp[bounds["move"]] = move
                     fail_at = total + k
                 steps.append(fem.Step(items, ramp=ramp, boundaries=bounds))
+                ramps.append(np.array(move, dtype=float))
                 last = float(move[-1])
                 total += n
             cb_log = []
+            carried = []
+            mp = bounds["move"].points
+
+            def on_substep(j, i, res):
+                cb_log.append((j, i))
+                # the converged state of substep i of step j carries the i-th value of that step's ramp on the moved face
+                got = np.asarray(res.x[0].values)[mp, 0]
+                carried.append(float(np.max(np.abs(got - ramps[j][i]))))
             use_x0 = rep % 4 == 2
-            job = fem.Job(steps, callback=lambda j, i, res: cb_log.append((j, i)))
+            job = fem.Job(steps, callback=on_substep)
             kw = dict(verbose=False, tol=1e-9, maxiter=10)
             if by_maxiter:
                 kw.update(tol=1e-7, maxiter=5)
@@ -102,6 +113,10 @@ def case_history(rep):
                 run.ok("trace", unit="trace:callback-per-yield")
             else:
                 run.fail("trace", "trace clause=callback-per-converged-substep", "%s: %d callbacks for %d converged substeps" % (label, ncb, nyield))
+            if carried:
+                run.compare("trace", "trace clause=converged-state-carries-the-ramp-value", max(carried), 1e-13,
+                            "%s: a converged substep does not carry the ramp value of its position on the moved boundary" % label,
+                            unit="trace:state-carries-ramp-value", config=("carries", kind))
             if inject:
                 if raised is not None and nyield == fail_at:
                     run.ok("trace", unit="trace:injected-failure-position", config="injected@%d" % fail_at)
@@ -160,6 +175,49 @@ def case_running_max(rep):
             check_trace(run, mon.trace, "running-max history")
         finally:
             attach.detach_all()
+    return fn
+
+
+def case_purity(rep):
+    """Trial evaluations are pure in the committed state: gradient and hessian calls (in any order, at any trial state) leave
+    the committed state array untouched and give the same answer again."""
+    def fn(run):
+        import felupe as fem
+        from ..util import batch_F
+        rng = rng_for(run.seed, "C15", "purity", rep)
+        batch = (2, 3)
+        models = {
+            "OgdenRoxburgh": (fem.OgdenRoxburgh(fem.NeoHooke(mu=1.0, bulk=5.0), r=3.0, m=1.0, beta=0.1), np.zeros((1,) + batch), 0.25),
+            "tt.ogden_roxburgh": (fem.Hyperelastic(fem.ogden_roxburgh, material=fem.neo_hooke, mu=1.0, r=3.0, m=1.0, beta=0.1, nstatevars=1), np.zeros((1,) + batch), 0.25),
+            "tt.finite_strain_viscoelastic": (fem.Hyperelastic(fem.finite_strain_viscoelastic, mu=1.0, eta=1.0, dtime=0.5, nstatevars=6), None, 0.25),
+            "Plasticity": (fem.LinearElasticPlasticIsotropicHardening(E=100.0, nu=0.3, sy=1.0, K=10.0), None, 0.03),
+        }
+        for name, (um, sv, amp) in models.items():
+            if sv is None:
+                sv = np.zeros((um.x[-1].shape[0],) + batch)
+                if name.startswith("tt.finite"):
+                    sv[[0, 3, 5]] = 1.0
+            mk = lambda: np.eye(3).reshape(3, 3, 1, 1) + amp * rng.standard_normal((3, 3) + batch) * 0.5
+            # a committed history of two increments
+            for _ in range(2):
+                sv = np.array(um.gradient([mk(), sv])[-1], float)
+            sv0 = sv.copy()
+            Ft, Fo = mk(), mk()
+            um.hessian([Ft, sv])
+            s1, t1 = um.gradient([Ft, sv])[0], um.gradient([Ft, sv])[-1]
+            s1, t1 = np.array(s1, float), np.array(t1, float)
+            um.gradient([Fo, sv])
+            um.hessian([Fo, sv])
+            out = um.gradient([Ft, sv])
+            s2, t2 = np.array(out[0], float), np.array(out[-1], float)
+            if np.array_equal(sv, sv0):
+                run.ok("history.purity", unit="purity:committed-state-untouched:" + name, config=("purity", name))
+            else:
+                run.fail("history.purity", "model=%s clause=committed-state-untouched" % name,
+                         "%s: evaluating gradient/hessian at trial states modified the committed state array" % name, {"max_change": maxabs(sv - sv0)})
+            run.compare("history.purity", "model=%s clause=trial-evaluation-repeatable" % name, max(maxabs(s1 - s2), maxabs(t1 - t2)), 0.0,
+                        "%s: the same trial evaluation gives another stress / trial state after other trial evaluations" % name,
+                        unit="purity:repeatable:" + name)
     return fn
 
 
@@ -311,6 +369,8 @@ def cases(tier, seed):
         out.append(("plasticity:%d" % rep, case_plasticity(rep)))
     for rep in range(5 if tier == "quick" else 15):
         out.append(("path:%d" % rep, case_path_independence(rep)))
+    for rep in range(1 if tier == "quick" else 4):
+        out.append(("purity:%d" % rep, case_purity(rep)))
     return out
 
 
@@ -319,7 +379,8 @@ SPEC = {
                        "trace:commit-only-on-success", "trace:failure-no-commit", "trace:all-substeps", "trace:callback-per-yield",
                        "trace:injected-failure-position", "success:commit", "path-independence", "or:running-max:hand", "or:running-max:ad",
                        "or:running-max:tensortrax", "or:primary:hand", "or:primary:tensortrax", "or:reload:hand", "or:reload:tensortrax",
-                       "plasticity:yield", "plasticity:monotone", "plasticity:plastic-steps"],
+                       "plasticity:yield", "plasticity:monotone", "plasticity:plastic-steps", "trace:state-carries-ramp-value",
+                       "purity:committed-state-untouched:OgdenRoxburgh", "purity:committed-state-untouched:Plasticity", "purity:repeatable:tt.finite_strain_viscoelastic"],
     "rule": ("random load histories on small solids (hex8, tet4, quad4/8 plane strain, axisymmetric, nearly-incompressible, mixed): 1..3 "
              "steps of 1..5 substeps, monotone/cyclic/repeated/random ramps of 1..3 items (boundary, pressure, point load, body force), "
              "jobs with x0 and callbacks, an infeasible substep injected at a random position in every third history; the recorded "
